@@ -26,6 +26,7 @@ import (
 
 	"github.com/BondMachineHQ/BondMachine/pkg/bondmachine"
 	"github.com/BondMachineHQ/BondMachine/pkg/procbuilder"
+	"github.com/BondMachineHQ/BondMachine/pkg/simbox"
 )
 
 var out = common.NewOut(os.Stdout)
@@ -36,6 +37,7 @@ type caseSpec struct {
 	Rsize int
 	Ticks int
 	Ring  bool
+	Delay bool       // simulated with the process-wide shared *simbox.SimDelays (deterministic distributions)
 	Progs [][]string // per core, instructions as assembler lines
 }
 
@@ -52,7 +54,11 @@ func (c caseSpec) String() string {
 	if c.Ring {
 		ring = 1
 	}
-	return fmt.Sprintf("id=%d P=%d rsize=%d ticks=%d ring=%d progs=%s", c.ID, c.P, c.Rsize, c.Ticks, ring, strings.Join(ps, "/"))
+	delays := 0
+	if c.Delay {
+		delays = 1
+	}
+	return fmt.Sprintf("id=%d P=%d rsize=%d ticks=%d ring=%d delays=%d progs=%s", c.ID, c.P, c.Rsize, c.Ticks, ring, delays, strings.Join(ps, "/"))
 }
 
 func parseCase(s string) (caseSpec, error) {
@@ -73,6 +79,8 @@ func parseCase(s string) (caseSpec, error) {
 			fmt.Sscanf(kv[1], "%d", &c.Ticks)
 		case "ring":
 			c.Ring = kv[1] == "1"
+		case "delays":
+			c.Delay = kv[1] == "1"
 		case "progs":
 			for _, p := range strings.Split(kv[1], "/") {
 				var prog []string
@@ -107,6 +115,19 @@ func opsFor(progs []string) []procbuilder.Opcode {
 	}
 	return res
 }
+
+// sharedDelays is ONE delay table handed to every simulation of the process that uses delays, the way
+// cmd/simfinetune hands its merged table to all its workers.  Every distribution has a single value
+// with probability 1: DelayDistribution.GetValue is then deterministic (and Normalize a no-op in value).
+var sharedDelays = &simbox.SimDelays{OpcodeDelays: map[string]simbox.DelayDistribution{
+	"inc":   {2: 1.0},
+	"add":   {3: 1.0},
+	"rset":  {1: 1.0},
+	"nop":   {1: 1.0},
+	"addp":  {2: 1.0},
+	"multp": {4: 1.0},
+	"r2o":   {1: 1.0},
+}}
 
 var buildMu sync.Mutex // EventuallyCreateInstruction appends to Allopcodes without synchronisation
 
@@ -149,6 +170,9 @@ func simulate(bm *bondmachine.Bondmachine, c caseSpec) (trace []string, err erro
 	}()
 	vm := new(bondmachine.VM)
 	vm.Bmach = bm
+	if c.Delay {
+		vm.SimDelayMap = sharedDelays
+	}
 	if e := vm.Init(); e != nil {
 		return nil, e
 	}
@@ -245,6 +269,7 @@ func genCases(tier string) []caseSpec {
 		c := caseSpec{ID: i + 1, P: 1 + rng.Intn(5), Rsize: []int{8, 16, 32}[rng.Intn(3)], Ticks: 20 + rng.Intn(60)}
 		pipe := i%3 != 2 // two thirds of the cases use the pipelined opcodes
 		c.Ring = i%4 == 3 && c.P > 1
+		c.Delay = i%6 == 1 || i%6 == 4 // a third of the cases share the delay table
 		for p := 0; p < c.P; p++ {
 			c.Progs = append(c.Progs, genProg(rng, pipe, c.Ring))
 		}
@@ -257,6 +282,12 @@ func genCases(tier string) []caseSpec {
 		{"rset r0 1", "rset r1 2", "addp r0 r1", "r2o r0 o0"}}})
 	cs = append(cs, caseSpec{ID: n + 3, P: 2, Rsize: 16, Ticks: 7, Progs: [][]string{
 		{"rset r0 3", "rset r1 4", "addfps16f8 r0 r1", "r2o r0 o0"}, {"rset r0 5", "rset r1 6", "addfps16f8 r0 r1", "addfps16f8 r0 r1"}}})
+	// fixed cases with the shared delay table: short simulations so that the Init of one overlaps the
+	// steps (and the Init) of the others in the concurrent groups
+	cs = append(cs, caseSpec{ID: n + 4, P: 1, Rsize: 8, Ticks: 12, Delay: true, Progs: [][]string{
+		{"rset r0 1", "inc r0", "inc r0", "add r0 r0", "r2o r0 o0", "j 1"}}})
+	cs = append(cs, caseSpec{ID: n + 5, P: 3, Rsize: 16, Ticks: 10, Delay: true, Progs: [][]string{
+		{"rset r0 2", "inc r0", "j 1"}, {"rset r1 3", "add r0 r1", "nop", "j 1"}, {"rset r0 1", "inc r0", "r2o r0 o0", "j 1"}}})
 	return cs
 }
 
@@ -337,23 +368,29 @@ func runBatch(path string) {
 				}
 			}
 		}
-		var wg sync.WaitGroup
-		type res struct {
-			tr  []string
-			err error
+		rounds := 1
+		if c.Delay {
+			rounds = 6 // start-up (VM.Init) of one simulation must overlap the others often
 		}
-		rs := make([]res, len(idx))
-		for w, j := range idx {
-			wg.Add(1)
-			go func(w, j int) {
-				defer wg.Done()
-				t, e := simulate(bms[j], cs[j])
-				rs[w] = res{t, e}
-			}(w, j)
-		}
-		wg.Wait()
-		for w, j := range idx {
-			emit(cs[j], "conc", k, rs[w].tr, rs[w].err)
+		for r := 0; r < rounds; r++ {
+			var wg sync.WaitGroup
+			type res struct {
+				tr  []string
+				err error
+			}
+			rs := make([]res, len(idx))
+			for w, j := range idx {
+				wg.Add(1)
+				go func(w, j int) {
+					defer wg.Done()
+					t, e := simulate(bms[j], cs[j])
+					rs[w] = res{t, e}
+				}(w, j)
+			}
+			wg.Wait()
+			for w, j := range idx {
+				emit(cs[j], "conc", k, rs[w].tr, rs[w].err)
+			}
 		}
 	}
 }
